@@ -1,17 +1,19 @@
 # Translator tie for control flow (tools/rs2lean.py): per property, a module proving that the Lean
 # definitions GENERATED from the current Rust function bodies equal the hand-written model.
 _GEN_TIE = {
-    "C18": ("BV.Props.C18Gen", "Log2FloorNonZero, GetInsertLengthCode, GetCopyLengthCode, combine_length_codes, PrefixEncodeCopyDistance, BrotliEncodeMlen, Command::copy_len, Command::distance_context, Command::restore_distance_code",
-            "log2_floor_non_zero_generated, get_insert_length_code_generated, get_copy_length_code_generated (every usize), combine_length_codes_generated (whole 24x24x2 domain), prefix_encode_copy_distance_generated (every code < 2^62, NPOSTFIX <= 3, NDIRECT <= 120), restore_distance_code_generated (every stored prefix with nbits <= 31, every extra), copy_len_generated, encode_mlen_generated (1..2^24)"),
-    "C08": ("BV.Props.C08Gen", "BrotliEncoderMaxCompressedSize, BrotliEncoderMaxCompressedSizeMulti",
-            "max_compressed_size_generated, max_compressed_size_multi_generated (every usize)"),
+    "C18": ("BV.Props.C18Gen", "Log2FloorNonZero, GetInsertLengthCode, GetCopyLengthCode, combine_length_codes, PrefixEncodeCopyDistance, BrotliEncodeMlen, StoreVarLenUint8, Command::copy_len, Command::distance_context, Command::restore_distance_code",
+            "log2_floor_non_zero_generated, get_insert_length_code_generated, get_copy_length_code_generated (every usize), combine_length_codes_generated (whole 24x24x2 domain), prefix_encode_copy_distance_generated (every code < 2^62, NPOSTFIX <= 3, NDIRECT <= 120), restore_distance_code_generated (every stored prefix with nbits <= 31, every extra), copy_len_generated, encode_mlen_generated (1..2^24), store_var_len_uint8_generated (every u64: the list of BrotliWriteBits calls)"),
+    "C08": ("BV.Props.C08Gen", "BrotliEncoderMaxCompressedSize, BrotliEncoderMaxCompressedSizeMulti, BrotliEncodeMlen, BrotliStoreUncompressedMetaBlockHeader",
+            "max_compressed_size_generated, max_compressed_size_multi_generated (every usize); encode_mlen_generated + store_uncompressed_header_generated: the generated write list of BrotliStoreUncompressedMetaBlockHeader, run on any writer, equals the stored-stream model's header writer for every legal MLEN"),
     "C02": ("BV.Props.C02Gen", "get_range", "get_range_generated_wrap (release semantics, num_threads != 0), get_range_generated (debug semantics: whenever the checked model returns)"),
     "C06": ("BV.Props.C02Gen", "get_range", "get_range_generated_wrap, get_range_generated"),
-    "C01": ("BV.Props.C01Gen", "WrapPosition",
-            "stated DIRECTLY over the generated definition: wrap_position_closed_form, wrap_position_low_bits (low 30 bits survive), wrap_position_identity (< 3 GiB), wrap_position_range (fits u32; never below 1 GiB again; below 3 GiB once wrapped), wrap_position_distance (distances modulo 2 GiB) — every u64 position"),
+    "C01": ("BV.Props.C01Gen", "WrapPosition, BrotliEncodeMlen, StoreCompressedMetaBlockHeader",
+            "stated DIRECTLY over the generated definition: wrap_position_closed_form, wrap_position_low_bits (low 30 bits survive), wrap_position_identity (< 3 GiB), wrap_position_range (fits u32; never below 1 GiB again; below 3 GiB once wrapped), wrap_position_distance (distances modulo 2 GiB) — every u64 position; store_compressed_header_generated: the generated write list of StoreCompressedMetaBlockHeader, run on any writer, equals the meta-block writer model's header (both ISLAST values, every legal MLEN)"),
     "C16": ("BV.Props.C16Gen", "parse_window_size", "parse_window_size_generated (>= 2 bytes: the model never panics and returns the generated answer), parse_window_size_generated_of_ok (any slice: whenever the model returns)"),
     "C03": ("BV.Props.C16Gen", "parse_window_size", "parse_window_size_generated, parse_window_size_generated_of_ok"),
     "C12": ("BV.Props.C16Gen", "parse_window_size", "parse_window_size_generated, parse_window_size_generated_of_ok"),
+    "C04": ("BV.Props.C04Gen", "BrotliStoreSyncMetaBlock, BrotliWriteEmptyLastMetaBlock (bit-writer functions: the generated value is the ordered list of BrotliWriteBits / JumpToByteBoundary calls)",
+            "store_sync_meta_block_generated, write_empty_last_meta_block_generated: the generated operation list run on ANY writer (runOps, BV/Lemmas/RsWriter.lean) equals the header model"),
     "C15": ("BV.Props.C15Gen", "EncodeWindowBits", "encode_window_bits_generated (every lgwin < 64, both header forms), encode_window_bits_ignores_outs"),
 }
 for _pid, (_mod, _fns, _ths) in _GEN_TIE.items():
